@@ -100,7 +100,9 @@ async def execute_server_command(future_loop, result_future, klong, command, nc)
         else:
             response = klong(str(command))
         if isinstance(response, KGFn):
-            response = KGRemoteFnRef(response.arity)
+            # a projection (e.g. sub(;1)) is called with as many arguments as it has open slots
+            open_slots = sum(1 for a in response.args if a is None) if isinstance(response.args, list) else 0
+            response = KGRemoteFnRef(open_slots if open_slots else response.arity)
         elif isinstance(response, KGLambda):
             # TODO: move to using .arity for KGLambda
             response = KGRemoteFnRef(response.get_arity())
